@@ -1,6 +1,6 @@
 (* C11 — automatic updates never widen what the project trusts. *)
-Require Import Base Extracted Criteria Search AuditGraph DepGraph Resolve Update Commands Witness.
-Require Import CriteriaProofs ResolveProofs UpdateProofs NeverWidens.
+Require Import Base Extracted Criteria Search AuditGraph DepGraph Resolve Update Commands Witness UserCommands.
+Require Import CriteriaProofs ResolveProofs UpdateProofs NeverWidens UserCommandsProofs.
 Local Open Scope N_scope.
 
 (* Every per-crate update that get_store_updates returns is [update_pkg] applied to
@@ -121,6 +121,30 @@ Example C11_never_widens_nonvacuous :
   has_errors (resolve w_graph (cmd_prune false false false w_graph w_store)) = false.
 Proof. vm_compute. auto. Qed.
 
+(* What a user explicitly asks for, where cargo-vet has logic of its own — `cargo vet trust`: of the crate's trusted
+   entries exactly ONE changes: either a new entry for the request is appended, or one existing entry of the same
+   publisher and the same (cleaned-up) criteria whose window lay inside the requested one gets the requested
+   window; every other entry stays where and what it was.  The criteria written mean exactly the request. *)
+Theorem C11_trust_changes_one_entry : forall t uid s e request hn l,
+  let crit := picked_criteria t request in
+  let nw := {| t_user := uid; t_start := s; t_end := e; t_crit := crit |} in
+  trust_add t uid s e request hn l = l ++ [nw] \/
+  exists l1 old l2, l = l1 ++ old :: l2 /\ trust_add t uid s e request hn l = l1 ++ nw :: l2 /\
+    t_crit old = crit /\ t_user old = uid /\ (s <= t_start old)%Z /\ (t_end old <= e)%Z.
+Proof. exact trust_changes_one_entry. Qed.
+Theorem C11_trusted_criteria_mean_the_request : forall t request,
+  ct_acyclic t = true -> (forall c, In c request -> c < N.of_nat (ct_len t)) ->
+  from_list t (picked_criteria t request) = from_list t request.
+Proof. exact picked_criteria_mean_the_request. Qed.
+Example C11_trust_nonvacuous :
+  let strong := {| t_user := 7; t_start := 150; t_end := 200; t_crit := [1] |} in
+  let same := {| t_user := 7; t_start := 150; t_end := 200; t_crit := [2] |} in
+  (* asking for [custom 2; safe-to-deploy] (= [2] cleaned up): the entry with criteria [2] is widened, the other untouched *)
+  trust_add [[1]] 7 100 300 [2; 1] false [strong; same] = [strong; {| t_user := 7; t_start := 100; t_end := 300; t_crit := [2] |}] /\
+  (* asking for safe-to-run next to a safe-to-deploy grant: a NEW entry, the stronger one is not touched *)
+  trust_add [[1]] 7 100 300 [0] false [strong] = [strong; {| t_user := 7; t_start := 100; t_end := 300; t_crit := [0] |}].
+Proof. vm_compute. auto. Qed.
+
 (* the modes the commands use (read from main.rs by the translator): only init and
    regenerate-exemptions search in RegenerateExemptions mode *)
 Theorem C11_modes_that_may_add_exemptions :
@@ -152,3 +176,5 @@ Print Assumptions C11_check_never_widens.
 Print Assumptions C11_prune_never_widens.
 Print Assumptions C11_regenerate_imports_never_widens.
 Print Assumptions C11_cleanups_never_widen.
+Print Assumptions C11_trust_changes_one_entry.
+Print Assumptions C11_trusted_criteria_mean_the_request.
